@@ -69,7 +69,8 @@ def make_responder(agent_state, cfgref, plan):
     return respond
 
 
-CALLS = [["enter", "get", "get"], ["enter", "get", "refresh", "get"], ["get", "get"], ["enter", "get_many", "get", "get"]]
+CALLS = [["enter", "get", "get"], ["enter", "get", "refresh", "get"], ["get", "get"], ["enter", "get_many", "get", "get"],
+         ["enter", "enter", "get", "get"], ["enter", "refresh", "refresh", "get"]]      # retries after a failed discovery / refresh
 
 
 def plans(rng, n, first_engine):
@@ -97,8 +98,8 @@ def run_sync(rec, cfg, given, calls, plan):
     api = apidrv.SyncApi(rec, cfg, lambda req: holder["r"](req), timeout=0.15, engine_given=given)
     holder["r"] = make_responder(st, api.cfgref, plan)
     s = api.session
-    try:
-        for c in calls:
+    for c in calls:
+        try:
             api.ctx.walk = False
             if c == "enter":
                 s.__enter__()
@@ -110,8 +111,8 @@ def run_sync(rec, cfg, given, calls, plan):
             else:
                 api.ctx.oids = ["1.3.6.1.2.1.1.5.0", "1.3.6.1.2.1.1.6.0"]
                 s.get_many(["1.3.6.1.2.1.1.5.0", "1.3.6.1.2.1.1.6.0"])
-    except BaseException:  # noqa - TimeoutError etc. end the scenario; everything is in the trace
-        pass
+        except BaseException:  # noqa - TimeoutError etc.: the caller goes on (retries); everything is in the trace
+            pass
     api.close()
     return a, rec.n
 
@@ -124,8 +125,8 @@ async def run_async(rec, cfg, given, calls, plan):
     holder["r"] = make_responder(st, api.cfgref, plan)
     s = api.session
     op = "get"
-    try:
-        for c in calls:
+    for c in calls:
+        try:
             api.ctx.walk = False
             if c == "enter":
                 op = "refresh"
@@ -141,9 +142,9 @@ async def run_async(rec, cfg, given, calls, plan):
                 op = "get_many"
                 api.ctx.oids = ["1.3.6.1.2.1.1.5.0", "1.3.6.1.2.1.1.6.0"]
                 await s.get_many(["1.3.6.1.2.1.1.5.0", "1.3.6.1.2.1.1.6.0"])
-    except BaseException as e:  # noqa
-        if type(e).__name__ == "TimeoutError":
-            apidrv.api_result_event(api.rec2, api.sid, op, e)
+        except BaseException as e:  # noqa
+            if type(e).__name__ == "TimeoutError":
+                apidrv.api_result_event(api.rec2, api.sid, op, e)
     api.close()
     return a, rec.n
 
@@ -174,7 +175,7 @@ def run(tier):
                     nreq = sum(2 if c == "enter" else 1 for c in calls) + 1
                     for pi, plan in enumerate(plans(rng, nreq, ename)):
                         idx += 1
-                        if not thorough and (idx + SEED) % 9:
+                        if not thorough and (idx + SEED) % 17:
                             continue
                         scen.append((auth, priv, kt, given, ename, calls, plan, idx))
     async def all_async(items):
